@@ -81,12 +81,15 @@ class WebsocketSession(object):
             if self._sock is None:
                 log.debug('WebSocket unavailable; data not sent')
                 raise errors.WebSocketUnavailable('not connected')
-            if self.websocket.is_closed:
-                log.debug('WebSocket closed; data not sent')
-                raise errors.WebSocketClosed('data not sent')
+            # Check closing before closed: another thread completing the
+            # closing handshake sets closed and then clears closing, read
+            # in this order the websocket can never appear active again
             if self.websocket.is_closing:
                 log.debug('WebSocket closing; data not sent')
                 raise errors.WebSocketClosing('data not sent')
+            if self.websocket.is_closed:
+                log.debug('WebSocket closed; data not sent')
+                raise errors.WebSocketClosed('data not sent')
             if closing:
                 # Enter the closing state while the lock is held, so that
                 # no other thread can write after the close frame
